@@ -43,12 +43,13 @@ RULE = (
     "Line (default / explicit bounds; created on, off, beyond the end), Radial (no bounds / bounds straddling 0 / "
     "excluding 0 on either side), Plane, Curve (LineCurve, CircleCurve full and arc, AnalyticCurve helix / parabola / "
     "cubic, Linear- and Spline-interpolated; with and without initial_param), ParametricSurface (paraboloid / saddle, "
-    "cylinder, sphere, sheared plane; with / without bounds and initial_params), Free; created on and off the "
+    "cylinder, sphere, sheared plane, and a wavy sheet entered only with initial_params; with / without bounds and "
+    "initial_params), Free; created on and off the "
     "constraint, then 4 in-bounds parameter vectors (bounds ends included) through update_params. Links: Translation "
     "/ Rotation / Symmetry built from arrays, float lists or int lists, 0..3 successive leader moves of size "
     "10^U(-3,1.5)*size (rotation: pure rotations about the axis by cumulative angles in (-10,10), wrapped angle kept "
     "0.05 away from +-pi), leader assigned and update() called as GridBase.update does. Every structural class is "
-    "also enumerated once as a fixed case. non-trivial: origin / centre farther than 0.1*size from 0 and direction "
+    "also enumerated twice as fixed cases. non-trivial: origin / centre farther than 0.1*size from 0 and direction "
     "neither unit (|n|-1 > 0.05) nor within 5 deg of a coordinate axis; distinct by (kind, family, bounds class, "
     "creation class, initial-parameter use, representation, number of moves, angle sign)"
 )
@@ -64,7 +65,7 @@ ASSUMPTIONS = [
     "<= 0.1..0.3 of the local radius of curvature so that the closest point is unique; closed curves are not entered "
     "within 0.6 rad of the seam; a surface with many local distance minima (wavy) only with initial_params",
     "positions for explicit parameters: distance to the declared constraint <= 1e-9*max(1,size) (1e-8 for "
-    "interpolated curves judged against a refined dense sampling of the curve object)",
+    "analytic and spline curves, judged against a refined dense sampling of the declaring function / curve object)",
     "links: follower within 1e-9*scale of leader+v0 / Householder mirror, 5e-7*scale of the Rodrigues rotation (arccos "
     "of a dot product of unit vectors resolves angles to ~1.5e-8); leader compared bit for bit around update(); a "
     "zero-size move is update() without re-assigning the leader",
@@ -268,7 +269,12 @@ def gen_curve(rng, fam, ccls, init):
         base_pt = pts[i] + fr * (pts[i + 1] - pts[i])
         if ccls == "off":
             seg = float(np.linalg.norm(pts[i + 1] - pts[i]))
-            offset = _fl(_perp(rng, pts[i + 1] - pts[i]) * rng.uniform(0.01, 0.1) * seg)
+            off = _perp(rng, pts[i + 1] - pts[i]) * rng.uniform(0.01, 0.1) * seg
+            others = [xg.seg_dist(base_pt + off, pts[j], pts[j + 1]) for j in range(len(pts) - 1) if j != i]
+            while others and min(others) < 2.0 * float(np.linalg.norm(off)):  # keep the closest point unique
+                off = off * 0.5
+                others = [xg.seg_dist(base_pt + off, pts[j], pts[j + 1]) for j in range(len(pts) - 1) if j != i]
+            offset = _fl(off)
         create["point"] = _fl(base_pt + arr(offset))
         create["segment"] = i
     elif fam == "spline":
@@ -509,11 +515,12 @@ def _brief(case):
 class _Clamp:
     """what the judge needs to know about one declared constraint"""
 
-    def __init__(self, label, dist, min_dist, tol_member):
+    def __init__(self, label, dist, min_dist, tol_member, ambiguous=None):
         self.label = label  # mechanism prefix
         self.dist = dist  # q -> distance from q to the declared (bounded) constraint
         self.min_dist = min_dist  # creation point -> minimum distance to the declared constraint
         self.tol_member = tol_member
+        self.ambiguous = ambiguous  # creation point -> True if 'the closest point' is ill-conditioned there
 
 
 def _judge_clamp(ctx, case, clamp, oracle, create_point, ccls, kind, sweep):
@@ -545,7 +552,11 @@ def _judge_clamp(ctx, case, clamp, oracle, create_point, ccls, kind, sweep):
                           f"created at {cp.tolist()} (off the constraint); reported position {pos.tolist()} is {dm:.3e} "
                           f"away from the declared constraint; case {_brief(case)}")
             return False
-        dmin = oracle.min_dist(cp)
+        if oracle.ambiguous is not None and oracle.ambiguous(cp):
+            ctx.count("skipped:closest-point-not-unique")
+            dmin = geom.dist(pos, cp)
+        else:
+            dmin = oracle.min_dist(cp)
         exc = geom.dist(pos, cp) - dmin
         _margin(f"{mk}:fresh-off-excess", exc / t["excess"])
         if exc > t["excess"]:
@@ -665,26 +676,26 @@ def _build_curve(case):
         curve = LineCurve(np.array(spec["p1"]), np.array(spec["p2"]), (lo, hi))
         p1, p2 = arr(spec["p1"]), arr(spec["p2"])
         a, b = p1 + lo * (p2 - p1), p1 + hi * (p2 - p1)
-        return curve, (lambda q: xg.seg_dist(q, a, b)), arr(case["create"]["point"]), t["manifold"]
+        return curve, (lambda q: xg.seg_dist(q, a, b)), arr(case["create"]["point"]), t["manifold"], None
     if fam == "circle":
         curve = CircleCurve(np.array(spec["origin"]), np.array(spec["rim"]), np.array(spec["normal"]), (lo, hi))
         arc = xg.Arc(spec["origin"], spec["normal"], spec["rim"], None if spec["full"] else (lo, hi))
-        return curve, arc.dist, arr(case["create"]["point"]), t["manifold"]
+        return curve, arc.dist, arr(case["create"]["point"]), t["manifold"], None
     if fam in ("helix", "parabola", "cubic"):
         fun = xg.curve_function(spec)
         curve = AnalyticCurve(lambda p: fun(float(p)), (lo, hi))
         sc = xg.SampledCurve(fun, lo, hi)
-        return curve, sc.dist, arr(case["create"]["point"]), t["sampled"]
+        return curve, sc.dist, arr(case["create"]["point"]), t["sampled"], sc.ambiguous
     pts = np.array(spec["points"], dtype=float)
     if fam == "linear":
         curve = LinearInterpolatedCurve(pts)
-        return curve, (lambda q: geom.point_polyline_distance(q, pts)), arr(case["create"]["point"]), t["manifold"]
+        return curve, (lambda q: geom.point_polyline_distance(q, pts)), arr(case["create"]["point"]), t["manifold"], None
     curve = SplineInterpolatedCurve(pts)
     # the declared curve is the curve object itself (its points are C16's subject, not this property's)
     sc = xg.SampledCurve(lambda p: curve.get_point(float(p)), 0.0, 1.0, n=801, samples=curve.discretize(0.0, 1.0, 801),
                          vectorised=False)
     cp = arr(curve.get_point(case["create"]["t0"])) + arr(case["create"]["offset"])
-    return curve, sc.dist, cp, t["sampled"]
+    return curve, sc.dist, cp, t["sampled"], sc.ambiguous
 
 
 def run_curve(ctx, case):
@@ -695,8 +706,8 @@ def run_curve(ctx, case):
     ok, built = _call(ctx, f"{label}:build-curve", lambda: _build_curve(case))
     if not ok:
         return
-    curve, dist, cp, tol_member = built
-    oracle = _Clamp(label, dist, dist, tol_member)
+    curve, dist, cp, tol_member, ambiguous = built
+    oracle = _Clamp(label, dist, dist, tol_member, ambiguous)
     init = case["initial_param"]
     if init is not None:
         ctx.count("branch:curve-initial-param")
